@@ -263,7 +263,7 @@ def main():
         ],
         "checks": checks,
         "not_applicable": na,
-        "notes": "See DESIGN.md. Known findings: KNOWN_FINDINGS.jsonl. Seeded breaking changes: seeded/.",
+        "notes": "See DESIGN.md. Known findings: KNOWN_FINDINGS.txt (fixed: and known: lines). Seeded breaking changes: seeded/.",
     }
     with open(os.path.join(VERIF, "MANIFEST.json"), "w") as f:
         json.dump(m, f, indent=1)
